@@ -277,7 +277,7 @@ impl Property for C16 {
     fn assumptions() -> Vec<String> {
         vec![
             "allocation by computed sizes (OP_CAT / OP_MUL / OP_NUM2BIN growth) is not a listed property: a case stops, counted under excluded_by_construction, before a step whose result would exceed 1 MiB (16 KiB operands for MUL/DIV/MOD)".into(),
-            "Interpreter::from_transaction is called with an input index that exists".into(),
+
         ]
     }
 
@@ -577,6 +577,13 @@ impl Property for C16 {
                 o.label_if(lock.is_none(), "no-locking-script");
                 o.label_if(value.is_none(), "no-value");
                 check_interpreter(&|| Interpreter::from_transaction(&tx, which).map_err(|e| e.to_string()), &mut o)?;
+                // an input index the transaction does not have is an error, not a panic
+                if *idx >= 200 {
+                    let beyond = n + (*idx as usize - 200);
+                    let r = lib_call("Interpreter::from_transaction(index beyond the inputs)", || Interpreter::from_transaction(&tx, beyond).map(|_| ()))?;
+                    ensure!(r.is_err(), "from_transaction_refuses_a_missing_input", "Ok", "Err: the transaction has no such input");
+                    o.label("input-index-beyond-the-inputs");
+                }
             }
         }
         Ok(o)
